@@ -307,50 +307,10 @@ Definition with_error_page (s : list op) (ret : Z) (errbody : bytes) : list op :
   else s.
 
 (* staticfiles.serveFile: sibling choice and the headers it sets before http.ServeContent *)
-(* strings.TrimSpace: white space is unicode.IsSpace, read from the UTF-8 encoding: the ASCII
-   ones (HT LF VT FF CR SP) and U+0085, U+00A0 (C2 85 / C2 A0), U+1680 (E1 9A 80),
-   U+2000..U+200A, U+2028, U+2029, U+202F (E2 80 80..8A / A8 / A9 / AF), U+205F (E2 81 9F),
-   U+3000 (E3 80 80); any other byte sequence (invalid encodings included) stops the trimming *)
-Definition is_space (c : N) : bool := (c =? 32) || ((9 <=? c) && (c <=? 13)).
-Definition sp2 (c1 c2 : N) : bool := (c1 =? 194) && ((c2 =? 133) || (c2 =? 160)).
-Definition sp3 (c1 c2 c3 : N) : bool :=
-  ((c1 =? 225) && (c2 =? 154) && (c3 =? 128)) ||
-  ((c1 =? 226) && (c2 =? 128) && (((128 <=? c3) && (c3 <=? 138)) || (c3 =? 168) || (c3 =? 169) || (c3 =? 175))) ||
-  ((c1 =? 226) && (c2 =? 129) && (c3 =? 159)) ||
-  ((c1 =? 227) && (c2 =? 128) && (c3 =? 128)).
-Fixpoint ltrim_sp (s : bytes) : bytes :=
-  match s with
-  | [] => []
-  | c :: r =>
-      if is_space c then ltrim_sp r
-      else match r with
-           | c2 :: r2 =>
-               if sp2 c c2 then ltrim_sp r2
-               else match r2 with
-                    | c3 :: r3 => if sp3 c c2 c3 then ltrim_sp r3 else s
-                    | [] => s
-                    end
-           | [] => s
-           end
-  end.
-(* the same from the right end, on the reversed string (last byte first) *)
-Fixpoint ltrim_sp_rev (s : bytes) : bytes :=
-  match s with
-  | [] => []
-  | c :: r =>
-      if is_space c then ltrim_sp_rev r
-      else match r with
-           | c2 :: r2 =>
-               if sp2 c2 c then ltrim_sp_rev r2
-               else match r2 with
-                    | c3 :: r3 => if sp3 c3 c2 c then ltrim_sp_rev r3 else s
-                    | [] => s
-                    end
-           | [] => s
-           end
-  end.
-Definition trim_space (s : bytes) : bytes := rev (ltrim_sp_rev (rev (ltrim_sp s))).
-Definition accepted (ae name : bytes) : bool := existsb (fun e => beq (trim_space e) name) (split 44 ae).
+(* the Accept-Encoding header is split at commas; an element names a coding iff, stripped of the
+   optional white space HTTP allows around a list element (strings.Trim(acc, " \t"): SP / HTAB,
+   nothing else — no Unicode white space, no other control), it IS the coding's name *)
+Definition accepted (ae name : bytes) : bool := existsb (fun e => beq (trim e) name) (split 44 ae).
 Definition select_sibling (prio : list (bytes * bytes)) (ae : bytes) (avail : bytes -> bool) : option (bytes * bytes) :=
   find (fun ne => accepted ae (fst ne) && avail (snd ne)) prio.
 Definition sib_data (sibs : list (bytes * bytes)) (ext : bytes) : option bytes :=
